@@ -538,6 +538,20 @@ impl Model {
                     ));
                 }
             }
+            // C02's last sentence: a client that read (value, cas) never overwrites a change it has
+            // not seen - so a generator-issued token never comes back for the same key, not even in
+            // a later lifetime (after a delete, an expiry, a flush)
+            // (a CAS-carrying store during which the eviction loop ran may have met its own key
+            // evicted: the version it gets is then client-derived - outside the claim, not recorded)
+            if !exempt && t != 0 && !(c.evicting && c.cas != 0) {
+                if !carried.contains(&t) && ev.ki.issued.contains(&t) {
+                    ev.viol.push(v(
+                        "token-reissued",
+                        format!("{} gave the item CAS {} which an earlier version of this key (in an earlier lifetime) already carried", name, t),
+                    ));
+                }
+                ev.ki.issued.insert(t);
+            }
             if !exempt && carried.contains(&t) {
                 ev.viol.push(v(
                     "token-reused",
@@ -728,7 +742,13 @@ impl Model {
                             };
                             ev.viol.push(v(clause, format!("{} answered {:?} on a key in state {:?}", name, status, ki.st)));
                         } else {
-                            // CAS != 0 on an absent key: no contract; an error must store nothing
+                            // CAS != 0 on an absent key: no contract for what is stored - but 'key
+                            // exists' from an add says the key is there, and it is not
+                            if *kind == StoreKind::Add && status == Some(st::EXISTS) {
+                                let clause = if expired { tomb_visible_clause(&ki.st, false) } else { "add-on-absent" };
+                                ev.viol.push(v(clause, format!("{} answered 'key exists' on a key in state {:?}", name, ki.st)));
+                            }
+                            // an error must store nothing
                             if after_e.is_some() && !unchanged {
                                 ev.viol.push(v("nothing-stored", format!("rejected {} left {:?}", name, after_e)));
                             }
